@@ -690,3 +690,124 @@ def run_line_comment_break(prog, tier, repo):
                               f'comment')
     res.floor('line-comment documents', n, 1)
     return [res]
+
+
+# ---------------------------------------------------------------------------------------------------------------------
+# ELEMENT-COMMENTS (C09): where the printer walks a sequence of nodes that carry their own comment reference (import
+# lines, class members, match arms, if-else chain blocks, imported names), every trip through the loop body - or every run
+# of the per-element closure - reads that reference or hands the whole element to another printer function. A read that
+# only happens inside a lazily invoked closure (`entry().or_insert_with(|| ..)`) does not count: from the second element
+# with the same key on, the comments are never looked at and silently disappear from the output.
+
+SORTERS = ('sorted_by', 'sorted_by_key', 'sort_by', 'sort_by_key', 'sorted_unstable_by', 'sort_unstable_by', 'max_by', 'min_by',
+           'cmp', 'partial_cmp', 'dedup_by', 'binary_search_by')
+
+
+def run_element_comments(prog, tier, repo):
+    from ..cfg import cfg_of, single_def
+    res = RuleResult('ELEMENT-COMMENTS', 'C09: every iteration over comment-carrying nodes in the printer reads the element\'s comment '
+                     'reference (or delegates the whole element) on every path through the iteration')
+
+    def peel(t):
+        from ..facts import strip_refs
+        t = strip_refs(t)
+        while t.k == 'adt' and t.name.split('<')[0] in ('std::boxed::Box', 'std::option::Option') and t.args:
+            t = strip_refs(t.args[0])
+        return t
+
+    def cfields(t):
+        t = peel(t)
+        if t.k != 'adt' or t.id not in prog.adts:
+            return None
+        a = prog.adts[t.id]
+        if a.kind != 'struct' or not a.name.startswith('samlang_ast::source'):
+            return None
+        fs = [(fi, f.name) for fi, f in enumerate(a.variants[0].fields) if f.ty.k == 'adt' and f.ty.name.endswith('CommentReference')]
+        return (a, fs) if fs else None
+    n = 0
+    for b in prog.bodies.values():
+        if b.crate != 'samlang_printer' or '::source_printer::' not in b.name + '::' or '::tests' in b.name:
+            continue
+        cfg = cfg_of(b)
+        heads = {h for _, h in cfg.back_edges()}
+        roots = []
+        if b.kind == 'closure':
+            # comparator closures only look at names
+            exempt = False
+            parents = [pb for pb in prog.bodies.values() if pb.crate == b.crate and any(
+                st[0] == 'a' and st[2][0] == 'agg' and st[2][1][0] == 'closure' and st[2][1][1] == b.id
+                for bl0 in pb.blocks for st in bl0.stmts)]
+            for parent in parents:
+                for bl in parent.blocks:
+                    t = bl.term
+                    if t[0] == 'call' and (callee(t)[1] or '').split('::')[-1] in SORTERS:
+                        for o in t[3]:
+                            if o[0] in ('c', 'm') and not o[1].proj:
+                                sd = single_def(parent, o[1].local)
+                                if sd and sd[1] != 'term' and sd[2][0] == 'agg' and sd[2][1][0] == 'closure' and sd[2][1][1] == b.id:
+                                    exempt = True
+            if not exempt:
+                for i in range(2, b.nargs + 1):
+                    if cfields(b.locals[i]):
+                        roots.append((i, 0, 'per-element closure'))
+        for bi, bl in enumerate(b.blocks):
+            if bl.cleanup:
+                continue
+            for st in bl.stmts:
+                if st[0] == 'a' and not st[1].proj and st[2][0] == 'use' and st[2][1][0] in ('c', 'm'):
+                    pl = st[2][1][1]
+                    if pl.proj and pl.proj[0][0] == 'v' and cfields(b.locals[st[1].local]):
+                        sd = single_def(b, pl.local)
+                        if sd and sd[1] == 'term' and (callee(sd[2])[1] or '').endswith('::next'):
+                            roots.append((st[1].local, bi, 'loop'))
+        for r, start, kind in roots:
+            a, fs = cfields(b.locals[r])
+            r0, p0 = root_local(b, r)
+            p0 = tuple(p0)
+            fidx = [x[0] for x in fs]
+            bc = set()
+            for bi, bl in enumerate(b.blocks):
+                if bl.cleanup:
+                    continue
+                for st in bl.stmts:
+                    if st[0] != 'a':
+                        continue
+                    rv = st[2]
+                    pls = []
+                    if rv[0] == 'use' and rv[1][0] in ('c', 'm'):
+                        pls.append(rv[1][1])
+                    if rv[0] == 'ref':
+                        dl = st[1].local
+                        deferred = any(s2[0] == 'a' and s2[2][0] == 'agg' and s2[2][1][0] == 'closure'
+                                       and any(o[0] in ('c', 'm') and o[1].local == dl for o in s2[2][2])
+                                       for b2 in b.blocks for s2 in b2.stmts)
+                        if not deferred:
+                            pls.append(rv[2])
+                    for pl in pls:
+                        rr, pp = root_local(b, pl.local)
+                        full = tuple(pp) + tuple(e for e in pl.proj if e[0] in ('f', 't', 'v'))
+                        if rr == r0 and full[:len(p0)] == p0 and any(e[0] == 'f' and e[1] == a.id and e[3] in fidx for e in full[len(p0):]):
+                            bc.add(bi)
+                t = bl.term
+                if t[0] == 'call' and (callee(t)[1] or '').startswith('samlang_printer'):
+                    for o in t[3]:
+                        if o[0] in ('c', 'm'):
+                            rr, pp = root_local(b, o[1].local)
+                            full = tuple(pp) + tuple(e for e in o[1].proj if e[0] in ('f', 't', 'v'))
+                            if rr == r0 and full == p0:
+                                bc.add(bi)
+            n += 1
+            ends = set(cfg.exits) | (heads if kind == 'loop' else set())
+            reach = cfg.reachable(start, removed_nodes=bc)
+            ok = start in bc or not ((reach - {start}) & ends if kind == 'loop' else reach & ends)
+            key = f'elements:{b.name}:{a.name.split("::")[-1]}'
+            names = ', '.join(x[1] for x in fs)
+            if ok:
+                res.ok(key, b.loc(), f'{a.name.split("::")[-1]}.{names} read on every path of the {kind}')
+            else:
+                res.violation(key, b.loc(), f'{b.name}: a {kind} over {a.name.split("::")[-1]} nodes has a path on which the element\'s '
+                              f'comment reference (`{names}`) is neither read nor handed to another printer function - reads inside a '
+                              f'lazily invoked closure do not count: the comments attached to such an element are dropped from the '
+                              f'formatted output')
+    res.floor('iterations over comment-carrying nodes', n, 5)
+    return [res]
